@@ -285,7 +285,51 @@ func monitor(c schedCase, r *result, stopped bool) []string {
 		if allSucc {
 			want = "finished"
 		}
-		if final.Overall != want {
+		// a stop that arrives when every step has already ended cancels nothing: the outcome is that of the
+		// steps (decided when the last one finished). If the first handler had started before the stop the
+		// outcome was certainly decided; otherwise the stop may still have been seen first (either is right).
+		stepsOpenOrLeft, handlerBeforeStop := true, false
+		for _, e := range r.Events {
+			if stopSeq >= 0 && e.Seq > stopSeq {
+				break
+			}
+			if e.Node >= 1000 && e.Kind == "start" {
+				handlerBeforeStop = true
+			}
+		}
+		// the quiescent snapshot taken right before the stop: had every step already reached a final label?
+		for k, op := range r.Ops {
+			if op == "stop" && k < len(r.Snaps) {
+				pre := r.Snaps[k]
+				stepsOpenOrLeft = false
+				for i := 0; i < n && i < len(pre.St); i++ {
+					if pre.St[i] == "not started" || pre.St[i] == "running" {
+						stepsOpenOrLeft = true
+					}
+				}
+				for _, f := range pre.Flight {
+					if f < 1000 {
+						stepsOpenOrLeft = true
+					}
+				}
+				if len(pre.Pending) > 0 {
+					stepsOpenOrLeft = true
+				}
+			}
+		}
+		late := stopSeq >= 0 && !stepsOpenOrLeft
+		unstopped := "finished"
+		if anyFailed {
+			unstopped = "failed"
+		}
+		ok := final.Overall == want
+		if late {
+			ok = final.Overall == unstopped || (!handlerBeforeStop && final.Overall == want)
+		}
+		if !ok {
+			if late {
+				want = unstopped
+			}
 			add("C04:overall-status-mismatch-after-stop:overall=%s want=%s", final.Overall, want)
 		}
 		for i := 0; i < n; i++ {
@@ -298,24 +342,10 @@ func monitor(c schedCase, r *result, stopped bool) []string {
 		}
 	}
 	// ---- C04: handlers ----
-	// the outcome that selects the handler is the one read right after the last step finished
-	// (a stop arriving during the handlers changes the reported status, not the selection)
+	// the handler that ran must be the one matching the outcome the run REPORTS in the end: the outcome is
+	// decided when the last step has finished; a stop arriving later (during the handlers) cancels nothing
+	// and must not turn a failed run into a canceled one after its onFailure handler ran (finding F44)
 	ovSel := final.Overall
-	for _, sn := range r.Snaps {
-		h := false
-		for _, f := range sn.Flight {
-			if f >= 1000 {
-				h = true
-			}
-		}
-		if h {
-			ovSel = sn.Overall
-			if ovSel == "running" { // handler nodes do not count; cannot happen
-				ovSel = final.Overall
-			}
-			break
-		}
-	}
 	var wantH []int
 	switch ovSel {
 	case "finished":
